@@ -1,6 +1,8 @@
 import Driver.Basic
 import Driver.C07
 import Driver.C08
+import Driver.Fields
+import Driver.Lines
 open Lean Driver
 
 def dispatch (j : Json) : R Json := do
@@ -9,6 +11,9 @@ def dispatch (j : Json) : R Json := do
   | "ping" => pure (Json.mkObj [("pong", toJson true)])
   | "c07" => Driver.C07.handle j
   | "c08" => Driver.C08.handle j
+  | "c02" => Driver.Fields.handleC02 j
+  | "c03" => Driver.Fields.handleC03 j
+  | "c01" => Driver.Lines.handleC01 j
   | _ => throw s!"unknown op {op}"
 
 partial def loop (inp out : IO.FS.Stream) : IO Unit := do
